@@ -861,6 +861,11 @@ func child(r *chk.Run, zone string) {
 	for sec := range anchors[zone] {
 		lat[sec] = true
 	}
+	// the upper half of the 4-byte field: MySQL stops at 2^31-1, MariaDB >= 11.5
+	// stores instants up to 2106-02-07 in the same encodings
+	for _, sec := range []uint32{1 << 31, 1<<31 + 1, 2208988800, 3000000000, 4102444800, 1<<32 - 2, 1<<32 - 1} {
+		lat[sec] = true
+	}
 	// every change of the zone's UTC offset between two consecutive quarter hours of 1970..2038
 	ntrans := 0
 	_, prev := time.Unix(0, 0).In(loc).Zone()
@@ -1336,7 +1341,7 @@ func run(r *chk.Run) {
 	r.Set("phase_wall_s", walls)
 	r.Rule("odometer enumeration of the abstract field values (sign, year, month, day, hour, minute, second, fraction, fsp; instants for TIMESTAMP) of each temporal type; the reference (verif/ref/temporal.go) encodes each value as the server stores it and renders MySQL's canonical text; every input is a distinct (type, fsp, bytes) and is decoded by replication.CellBytes between sentinels (3-byte types and lattices at two offsets, bulk products at one rotating offset); text and consumed length must be equal. TIMESTAMP runs in one subprocess per zone (TZ=<zone>); the expected text is the instant in time.LoadLocation(zone), cross-checked against literal anchors")
 	r.Assume("only values a server can store: month 0..12, day 0..31 (zero dates, zero-in-date and ALLOW_INVALID_DATES days included), year 0..9999, TIME within +-838:59:59.000000, no negative zero, fraction a multiple of 10^(6-fsp)")
-	r.Assume("TIMESTAMP instants are 0 (the zero timestamp, fraction 0) or 1..2^31-1 ('1970-01-01 00:00:01' .. '2038-01-19 03:14:07' UTC, the server's range)")
+	r.Assume("TIMESTAMP instants are 0 (the zero timestamp, fraction 0) or 1..2^31-1 ('1970-01-01 00:00:01' .. '2038-01-19 03:14:07' UTC, MySQL's range) in the sweeps; the boundary lattice also holds instants of the upper half of the 4-byte field (up to 2^32-1, MariaDB >= 11.5)")
 	r.Assume("time zone rules are those of the Go runtime's zone database (system zoneinfo or the embedded copy), the same source for the decoder's time.Local and the reference's time.LoadLocation; literal anchors (fixed offsets, two US DST changes) tie it to the real zones")
 	r.SetExhaustive(exhaustive)
 }
